@@ -498,6 +498,22 @@ Proof.
   apply (mapi_tparams (sd_tparams sd) [] H).
 Qed.
 
+(* NewT returns *T instantiated with exactly the struct's own type parameters, in order *)
+Theorem new_result_type_spec : forall sd,
+  ident_constraints sd = true ->
+  new_result_type sd =
+  ("*" ++ sd_name sd ++ match sd_tparams sd with
+                        | [] => ""
+                        | gs => "[" ++ String.concat ", " (map (fun g => String.concat ", " (tp_names g)) gs) ++ "]"
+                        end)%string.
+Proof.
+  intros sd H. unfold new_result_type, new_tname_list.
+  assert (E : new_tparams sd = map (fun g => (String.concat ", " (tp_names g), con_text (tp_con g))) (sd_tparams sd)).
+  { unfold new_tparams, type_params, type_params_map. apply (mapi_tparams (sd_tparams sd) [] H). }
+  rewrite E. destruct (sd_tparams sd) as [|g gs]; [reflexivity|].
+  cbn [map]. rewrite map_map. cbn [fst]. reflexivity.
+Qed.
+
 (* a struct that embeds a pointer to itself: the analysis does not terminate, whatever the fuel *)
 Lemma self_embed_out_of_fuel : forall (pkg : pkg_spec) (sd : sdecl) fuel depth pre is_new acc,
   find_struct pkg (sd_pkg sd) (sd_name sd) = Some sd ->
